@@ -578,6 +578,7 @@ func signChanges() []change {
 	add("signer-local-key-not-signer", false, -1, func(r *areq) { r.S.local = true; r.S.key = notASigner{1} })
 	add("signer-local-wrong-key-type", false, -1, func(r *areq) { r.S.local = true; r.S.key = Key("rsa2048a") })
 	add("signer-local-wrong-curve", false, -1, func(r *areq) { r.S.local = true; r.S.key = Key("ec384") })
+	add("signer-local-ed25519-key", false, -1, func(r *areq) { r.S.local = true; r.S.key = Key("ed25519") })
 	add("chain-ts-leaf", false, -1, func(r *areq) { r.S.chain = basePlan(2, "ts", "ec256b").build().xs })
 	add("chain-reversed", false, -1, func(r *areq) {
 		if len(r.S.chain) > 0 {
@@ -675,6 +676,43 @@ func genSign(prop, tier string, rng *RNG, w *CaseWriter) {
 			r2.Labels = []string{"signer-remote", "scheme-sa"}
 			if applyChange(r2, c) {
 				emitSign(w, r2)
+			}
+		}
+	}
+	// every specification-defined text label as an attribute key, whether or not the header it collides with is
+	// going to be written for this request (expiry unset; the other scheme's time header), critical or not, with a
+	// value of the header's own kind or a plain string: always an invalid request
+	for fi := 0; fi < 2; fi++ {
+		for _, scheme := range []string{"notary.x509", "notary.x509.signingAuthority"} {
+			for _, withExp := range []bool{true, false} {
+				for _, k := range []string{kExp, kST, kScheme, kAST, "alg", "cty", "crit"} {
+					for _, crit := range []bool{true, false} {
+						for vi := 0; vi < 2; vi++ {
+							if fi == 1 && (k == "alg" || k == "cty" || k == "crit") {
+								continue // plain text labels in COSE (the integer labels are in the single changes)
+							}
+							var val any = "plain"
+							if vi == 0 {
+								if fi == 0 {
+									val = "2099-01-01T00:00:00Z"
+								} else {
+									val = cborTag1Int(4102444800)
+								}
+								if k == kScheme {
+									val = scheme
+								}
+							}
+							r := baseReq(fi)
+							r.Scheme = scheme
+							if !withExp {
+								r.Expiry = time.Time{}
+							}
+							r.Attrs = []aattr{{akey{Kind: "text", Text: k}, crit, val}}
+							r.Labels = []string{"reserved-key-grid", "key=" + strings.TrimPrefix(k, "io.cncf.notary."), fmt.Sprintf("crit=%v exp=%v", crit, withExp), "scheme=" + scheme}
+							emitSign(w, r)
+						}
+					}
+				}
 			}
 		}
 	}
